@@ -97,7 +97,7 @@ var registry = map[string]runner{}
 var ambientNote = map[string]string{}
 
 func init() {
-	amb := " Ambient settings that no property names as relevant (mutex, identifier, category, auxiliary map, less closure, accepting validity/push closures, discarding logger at every level) are drawn on a random half of the generated stacks/receivers"
+	amb := ". Ambient settings that no property names as relevant (mutex, identifier, category, auxiliary map, less closure, accepting validity/push closures, discarding logger at every level) are drawn on a random half of the generated stacks/receivers"
 	wide := "; one generated tree in twelve carries an extra run of 12..40 leaves"
 	lw := "; single-goroutine lock watch: a lock requested while still held is reported as a violation instead of hanging."
 	for _, id := range []string{"C02", "C04", "C05", "C07", "C09", "C12", "C17"} {
@@ -108,7 +108,7 @@ func init() {
 		ambientNote[id] = amb + lw
 	}
 	for _, id := range []string{"C14", "C15", "C18"} {
-		ambientNote[id] = " Single-goroutine lock watch: a lock requested while still held is reported as a violation instead of hanging."
+		ambientNote[id] = ". Single-goroutine lock watch: a lock requested while still held is reported as a violation instead of hanging."
 	}
 }
 
